@@ -121,7 +121,9 @@ def micro_jobs(tier):
 def jobs(tier):
     from props import codec
     # C++ reader primitives (DESIGN 5.C02 T2, first layer): every Read* stays inside its window and reports a sticky error
-    return micro_jobs(tier) + codec.codec_jobs(tier, want=('reader',))
+    from props import c03
+    # the C++ gateway's receive step and frame-header parse (shared with C03): the read window stays inside the buffer for every size/cursor/budget
+    return micro_jobs(tier) + codec.codec_jobs(tier, want=('reader',)) + [j for j in c03.mgw_jobs() if j.name in ('mgw_ReceiveMoreData', 'mgw_GetBodySize')]
 
 
 META = dict(
@@ -133,7 +135,7 @@ META = dict(
                  'libc strlen/strcmp/strncmp behave as their contract stubs say (read at most n / up to the first NUL)',
                  'single thread'],
     assumed_contracts=['strlen', 'strcmp', 'strncmp', 'GetNumItemsInField (contract written, enforcement exceeds the sandbox; assumed where callers replace it)'],
-    not_lowered=['MicroMessage: GetNumItemsInField, UMIteratorAdvance, UMGetString, UMFindData, UMFindMessage are NOT enforced (solver limits)', 'MiniMessage.c, both C gateways, Message::Unflatten and the C++ gateways are not covered yet'],
+    not_lowered=['MessageIOGateway::DoInputImplementation itself (only its ReceiveMoreData step and GetBodySize are lowered; the wrap-around guard repaired in 9935e9c is not under an obligation)', 'MicroMessage: GetNumItemsInField, UMIteratorAdvance, UMGetString, UMFindData, UMFindMessage are NOT enforced (solver limits)', 'MiniMessage.c, both C gateways, Message::Unflatten and the C++ gateways are not covered yet'],
     explanation='Every read-side function of MicroMessage.c is enforced against a contract whose precondition is "any buffer of any size with arbitrary contents"; '
                 'CBMC generates a dereference obligation for every memory access, dfcc generates frame/postcondition/loop-invariant/variant obligations.',
 )
